@@ -4,7 +4,6 @@ package referenceclient
 
 import (
 	"bytes"
-	"context"
 	"encoding/base64"
 	"encoding/binary"
 	"fmt"
@@ -18,13 +17,11 @@ import (
 	"testing"
 	"time"
 
-	"connectrpc.com/conformance/internal"
 	conformancev1 "connectrpc.com/conformance/internal/gen/proto/go/connectrpc/conformance/v1"
 	"connectrpc.com/conformance/internal/verifkit"
 	"golang.org/x/net/http2"
 	"golang.org/x/net/http2/h2c"
 	"google.golang.org/protobuf/proto"
-	"google.golang.org/protobuf/types/known/anypb"
 	"pgregory.net/rapid"
 )
 
@@ -152,8 +149,6 @@ var (
 	vfRecOnce sync.Once
 	vfRecs    [2]*vfRecordingServer
 	vfRecErr  error
-	vfRecSeq  int
-	vfRecMu   sync.Mutex
 )
 
 func vfEnsureRecorders() error {
@@ -167,45 +162,6 @@ func vfEnsureRecorders() error {
 	})
 	return vfRecErr
 }
-
-// vfRunClient drives the exported reference client with one request and
-// returns its response.
-func vfRunClient(req *conformancev1.ClientCompatRequest) (*conformancev1.ClientCompatResponse, error) {
-	ctx, cancel := context.WithTimeout(context.Background(), 30*time.Second)
-	defer cancel()
-	inR, inW := io.Pipe()
-	outR, outW := io.Pipe()
-	done := make(chan error, 1)
-	go func() {
-		err := RunInReferenceMode(ctx, []string{"reference-client", "-p", "1"}, inR, outW, io.WriteCloser(vfNopWriteCloser{io.Discard}), nil)
-		_ = outW.Close()
-		done <- err
-	}()
-	go func() {
-		_ = internal.WriteDelimitedMessage(inW, req)
-		_ = inW.Close()
-	}()
-	resp := &conformancev1.ClientCompatResponse{}
-	if err := internal.ReadDelimitedMessage(outR, resp, "reference client", 30*time.Second, 16<<20); err != nil {
-		return nil, err
-	}
-	go func() { _, _ = io.Copy(io.Discard, outR) }()
-	select {
-	case err := <-done:
-		return resp, err
-	case <-time.After(30 * time.Second):
-		return resp, fmt.Errorf("reference client did not exit after EOF on stdin")
-	}
-}
-
-func vfAny(m proto.Message) ([]*anypb.Any, error) {
-	a, err := anypb.New(m)
-	return []*anypb.Any{a}, err
-}
-
-type vfNopWriteCloser struct{ io.Writer }
-
-func (vfNopWriteCloser) Close() error { return nil }
 
 func vfEncodedValue(p vfEncParam) (string, error) {
 	var data []byte
